@@ -397,6 +397,31 @@ def rule_r4(facts, rep, rid="C07-R4"):
                     rep.violation(rid, key, "ordered-list items are numbered `%s`, not position + 1" % t, loc(gb, arm["body"]))
 
 
+def rule_r6(facts, rep, rid="C07-R6"):
+    """A heading (and a table cell) is written on one line, while GraphInline::SoftBreak / LineBreak print as a newline.  The outline survives only because
+    the reader never produces break inlines (a break inside a paragraph / setext heading becomes the text ` `): a break inline inside a heading would end the
+    heading at the break and turn the rest into a paragraph."""
+    made = []
+    for f in facts.body_fns():
+        if f.crate != "liwe" or "::tests::" in f.def_ or "::test::" in f.def_:
+            continue
+        for x in fb.walk(f.body):
+            if x.get("k") == "call" and x.get("ctor") and (fb.callee(x) or "").endswith(("DocumentInline::SoftBreak", "DocumentInline::LineBreak")):
+                made.append((f, x))
+            if x.get("k") == "path" and fb.norm(x.get("def") or "").endswith(("GraphInline::SoftBreak", "GraphInline::LineBreak")) and x.get("res") != "local":
+                # a unit variant used as a value (not in a pattern): constructing the graph-level break
+                made.append((f, x))
+    # the printers themselves mention the variants only in patterns; to_graph_inline converts Document -> Graph breaks (reachable only if the reader made one)
+    made = [(f, x) for f, x in made if not f.def_.endswith("DocumentInline::to_graph_inline")]
+    key = "reader|no-break-inlines"
+    if made:
+        f, x = made[0]
+        rep.violation(rid, key, "%s builds a break inline (`%s`): inside a heading it is printed as a newline, so `Line one\\nline two\\n====` comes back as the heading `Line one` plus a "
+                      "paragraph `line two` (the outline changes)" % (fb.last2(f.def_), fb.show(x)[:50]), loc(f, x))
+    else:
+        rep.ok(rid, key, "no DocumentInline::SoftBreak / LineBreak is constructed outside the Document->Graph conversion: breaks reach the printers as the text ` `")
+
+
 def run(facts, rep, tier):
     rule_r1(facts, rep)
     rule_r2(facts, rep)
@@ -406,3 +431,9 @@ def run(facts, rep, tier):
     rule_r4(facts, rep)
     # C07-R5 = C01-R10: a block after a list of empty items must not become a child of the list ("every block stays ... at the same nesting depth")
     c01.rule_r10(facts, rep, rid="C07-R5")
+    rep.rule("C07-R3c", "= C01-R7 / C01-R8: no lossy adapter and no unaudited trimming in the printers that decide blank lines and indentation of nested blocks "
+             "(a block that loses its blank line or its indent leaves its item and changes depth).")
+    c01.rule_r7(facts, rep, rid="C07-R3c")
+    c01.rule_r8(facts, rep, rid="C07-R3d")
+    rep.rule("C07-R6", "Single-line containers: no break inline (printed as a newline) is ever produced by the reader, so a heading's text stays on the heading's line.")
+    rule_r6(facts, rep)
